@@ -567,9 +567,14 @@ def tree_dirty(path):
 
 def do_check(prop, tier, only, jobs, keep):
     t0 = time.time()
-    obs = [o for o in load_obligations() if prop in o.props]
-    if tier == "quick":
-        obs = [o for o in obs if o.props[prop] == "quick"]
+    if prop == "ALL":      # every registered obligation once (maintenance: validates both tiers without re-running shared obligations per property)
+        obs = [o for o in load_obligations() if tier == "thorough" or "quick" in o.props.values()]
+        if os.environ.get("VERIF_ONLY_THOROUGH"):
+            obs = [o for o in obs if "quick" not in o.props.values()]
+    else:
+        obs = [o for o in load_obligations() if prop in o.props]
+        if tier == "quick":
+            obs = [o for o in obs if o.props[prop] == "quick"]
     if only:
         obs = [o for o in obs if o.name in only]
     if not obs:
